@@ -172,6 +172,26 @@ def selftest(pid="C05"):
     tot, acc = M.alg_validate(chk, fake, tag="-selftest")
     alg_ok = (tot == 2 and acc == 1)
     print("selftest %-22s expected %-40s got %s %s" % ("alg good+permuted", "1 of 2 accepted", "%d of %d" % (acc, tot), "ok" if alg_ok else "WRONG"))
+    # strace attribution: a restarted clone record, a missing clone record and a missing munmap record
+    # must never become verdicts about OTHER threads; the first two must not become verdicts at all
+    import copy as _copy
+
+    def rejudge(strace_recs, label):
+        r2 = T.Run("selftest-" + label)
+        r2.events, r2.script, r2.rc, r2.release, r2.strace = r.events, r.script, 0, False, strace_recs
+        c2 = S.Collector(chk)
+        o2, b2, i2 = c2.add(r2, "free")
+        c2.flush("selftest-" + label)
+        return c2.findings, i2.get("unattributed") or []
+
+    recs = r.strace
+    hclones = [x for x in recs if x["pid"] == info["h"] and x["call"] == "clone"]
+    fake = dict(hclones[1], ret="?", note="ERESTARTNOINTR (To be restarted)", pos=hclones[1]["pos"] - 0.5, rpos=hclones[1]["rpos"] - 0.5)
+    with_restart = sorted(recs + [fake], key=lambda x: x["pos"])
+    f1, u1 = rejudge(with_restart, "restart")
+    f2, u2 = rejudge([x for x in recs if x is not hclones[1]], "noclone")
+    strace_ok = (not f1 and not u1) and (not f2 and len(u2) >= 1)
+    print("selftest %-22s expected %-40s got %s %s" % ("strace restart/missing", "no verdict; 1 unattributed", "%d/%d findings, %d/%d unattributed" % (len(f1), len(f2), len(u1), len(u2)), "ok" if strace_ok else "WRONG"))
     verdicts, n = T.judge(chk, "selftest", [(c[0], c[1]) for c in cases])
     bad = 0
     for i, (name, evs, want) in enumerate(cases):
@@ -180,5 +200,6 @@ def selftest(pid="C05"):
         print("selftest %-22s expected %-40s got %s %s" % (name, want, got, "ok" if ok else "WRONG"))
         bad += 0 if ok else 1
     bad += 0 if alg_ok else 1
-    print("selftest: %d case(s), %d wrong" % (len(cases) + 1, bad))
+    bad += 0 if strace_ok else 1
+    print("selftest: %d case(s), %d wrong" % (len(cases) + 2, bad))
     return 0 if bad == 0 else 2
